@@ -175,7 +175,7 @@ Proof.
       * unfold pay_admins. apply pay_each_beq, bset_beq, Hx.
   - intro H; inversion H; subst s2 ok2. split; [reflexivity|].
     unfold pay_admins_s. rewrite (bal_pay_each_s c Hst), (bal_setbal c Hst), bal_touch.
-    unfold pay_admins. rewrite (Hb1 from). apply pay_each_beq, bset_beq, Hb1.
+    unfold pay_admins. apply pay_each_beq, bset_beq, Hb1.
 Qed.
 
 (** one native transaction *)
@@ -237,3 +237,29 @@ Qed.
 
 End Refine.
 
+
+Lemma bal_fold_touch l : forall s, bal (fold_left touch l s) = bal s.
+Proof. induction l as [|a l IH]; intro s; simpl; [reflexivity|]. rewrite IH. apply bal_touch. Qed.
+
+(** hence the C14 theorems about [Fees.apply_block] speak about the balances the judged model
+    computes: conservation and receipts-per-transaction for the executable model *)
+Corollary exec_block_conservation c e dom ts ns s pre :
+  d_stale_changer c = false -> x_fees c = fcfg_fixed ->
+  admins e <> [] -> NoDup dom -> covers dom e ts ->
+  let '(s', rcs, _) := exec_block c e s pre (to_txs e ts ns) in
+  let '(_, _, g) := apply_block fcfg_fixed e (bal s) ts in
+  conserve dom (bal s) (bal s') g /\ length rcs = length ts.
+Proof.
+  intros Hst Hf Ha Hnd Hcov. unfold exec_block.
+  pose proof (native_block_refines c Hst e ts ns 0%N (new_block s pre) (bal s)) as H.
+  assert (Hb : beq (bal (new_block s pre)) (bal s))
+    by (intro a; unfold new_block; rewrite bal_fold_touch; reflexivity).
+  specialize (H Hb). rewrite Hf in H.
+  destruct (apply_txs c e 0%N (new_block s pre) (to_txs e ts ns)) as [[s' rcs] cn].
+  destruct (apply_block fcfg_fixed e (bal s) ts) as [[b' oks] g] eqn:Eb.
+  destruct H as [H1 H2].
+  destruct (block_conservation dom e Ha Hnd ts (bal s) b' oks g Hcov Eb) as [Hc Hl].
+  split.
+  - unfold conserve in *. rewrite (sumb_ext dom (bal s') b'); [exact Hc | intros a _; apply H1].
+  - rewrite <- Hl, <- H2. symmetry. apply map_length.
+Qed.
